@@ -32,7 +32,7 @@ LEVEL_NOTE = ("fake API client and component graph; real status trackers fed wit
 RULE = ("battery: batdata generator (C01 domain) x outcome vector over the commanded inverters; pv: 1-6 solar inverters "
         "with arbitrary lower bounds, request negative/zero/positive, x outcome vector. distinct = canonical case "
         "JSON; non-trivial = >=2 set_power calls and at least one non-ok outcome or non-zero excess")
-REQUIRED_BUCKETS = ["battery-group-outside-the-request-present", "pv-inverter-without-a-reported-bound",
+REQUIRED_BUCKETS = ["request-object-changed-by-its-owner-while-in-flight", "battery-group-outside-the-request-present", "pv-inverter-without-a-reported-bound",
                     "battery", "pv", "all-ok", "some-failed", "all-failed", "outcome:range", "outcome:client",
                     "outcome:exc", "outcome:hang", "excess-nonzero", "multi-inverter-group", "followup-request", "pv-concurrent-requests",
                     "reply-shortly-before-a-fractional-timeout", "unusable-battery-group-requested", "calls-answer-after-different-delays"]
@@ -77,6 +77,8 @@ def gen(rng: Any, tier: str, i: int) -> Any:
             # calls of one request answer after different delays (an early error next to a slower success)
             tmo = case["timeout"]
             case["lat_vec"] = [rng.choice([0.0, 0.0, 0.06 * tmo, 0.2 * tmo, 0.9 * tmo]) for _ in range(n_inv)]
+        if case["latency"] >= 0.3 and not case.get("lat_vec") and rng.random() < 0.4:
+            case["reuse_request"] = True  # the Request object is changed by its owner while it is in flight
         if rng.random() < 0.3:
             # the microgrid has one more battery group, healthy and streaming, that the request does not name
             case["bystander"] = True
@@ -167,12 +169,24 @@ async def _battery_run(case: dict[str, Any], vec: list[str], out: dict[str, Any]
         api.calls.clear()
         req = Request(power=Power.from_watts(case["power"]), component_ids=set(all_bats),
                       adjust_power=bool(case.get("adjust", True)))
-        await mgr.distribute_power(req)
+        if case.get("reuse_request") and k == 0:
+            # the caller re-uses its (mutable) Request object for the next request while this one is still in flight:
+            # the result is about the power that was requested when distribute_power() was called
+            async def _reuse(r: Any = req) -> None:
+                await asyncio.sleep(0.05)
+                r.power = Power.from_watts(case["power"] * 0.4)
+
+            reuser = asyncio.create_task(_reuse())
+            await mgr.distribute_power(req)
+            await asyncio.wait([reuser])
+        else:
+            await mgr.distribute_power(req)
         res = res_rx.consume() if res_rx._q else None  # noqa: SLF001
         extra = []
         while res_rx._q:  # noqa: SLF001  (exactly one result per processed request)
             extra.append(repr(res_rx.consume())[:200])
         out["rounds"].append({"result": res, "calls": [dict(c) for c in api.calls], "request": req, "extra_results": extra,
+                              "power_at_call": case["power"],
                               "inv_bats": {**{i: sorted(bats) for bats, invs in groups for i in invs}, BY_INV: [BY_BAT]}})
         if k + 1 < n_req:
             await asyncio.sleep(0.2)
@@ -249,7 +263,7 @@ def _judge(case: dict[str, Any], vec: list[str], rnd: dict[str, Any], rec: Any, 
                                                                    PartialFailure, Success)
 
     res, calls, req = rnd["result"], rnd["calls"], rnd["request"]
-    p = req.power.as_watts()
+    p = rnd.get("power_at_call", req.power.as_watts())
     t = tol(p)
     rec.count("set_power_calls_observed", len(calls))
     w: dict[str, Any] = {"kind": case["kind"], "power": p, "outcomes": vec,
@@ -334,6 +348,8 @@ def check(case: dict[str, Any], rec: Any) -> None:
     rec.bucket(case["kind"])
     if case.get("bystander"):
         rec.bucket("battery-group-outside-the-request-present")
+    if case.get("reuse_request"):
+        rec.bucket("request-object-changed-by-its-owner-while-in-flight")
     if case.get("nan_bound") is not None:
         rec.bucket("pv-inverter-without-a-reported-bound")
     if case.get("unusable") is not None:
